@@ -178,10 +178,10 @@ Qed.
 Lemma solve_frequency_char (o : oracle) (st : state) (f : nat) :
   solve_frequency o st f = negb (count_deficient st) && numeric_ok o st f.
 Proof.
-  unfold solve_frequency, count_deficient, numeric_ok. destruct (solve_path st).
+  unfold solve_frequency, count_deficient, short_system, numeric_ok. destruct (solve_path st).
   - reflexivity.
   - rewrite forallb_split. rewrite andb_assoc. reflexivity.
-  - destruct (_ <? _); reflexivity.
+  - destruct (existsb _ _); [reflexivity|]. destruct (_ <? _); reflexivity.
 Qed.
 
 Lemma forallb_seq_ext (p q : nat -> bool) (a n : nat) :
@@ -306,7 +306,7 @@ Lemma short_system_deficient (st : state) (k : nat) :
   sys_count st k < unknowns (cf_ty (st_cf st)) (cf_r (st_cf st)) (cf_c (st_cf st)) ->
   count_deficient st = true.
 Proof.
-  intros Hu Hk Hc. unfold count_deficient. rewrite (known_path_simple st Hu).
+  intros Hu Hk Hc. unfold count_deficient, short_system. rewrite (known_path_simple st Hu).
   apply existsb_exists. exists k. split.
   - apply in_seq. lia.
   - apply Nat.ltb_lt. exact Hc.
@@ -317,7 +317,21 @@ Lemma auto_total_deficient (st : state) :
   st_equations st + st_corr st < x_length st + st_unknown st ->
   count_deficient st = true.
 Proof.
-  intros Hu Ht Hc. unfold count_deficient. rewrite (unknown_path_auto st Hu Ht). apply Nat.ltb_lt. exact Hc.
+  intros Hu Ht Hc. unfold count_deficient. rewrite (unknown_path_auto st Hu Ht).
+  apply orb_true_iff. right. apply Nat.ltb_lt. exact Hc.
+Qed.
+
+(* DD90: with unknown parameters too, a system with fewer equations than error terms is refused *)
+Lemma auto_short_system_deficient (st : state) (k : nat) :
+  st_unknown st <> 0 -> is_trl st = false ->
+  k < systems (cf_ty (st_cf st)) (cf_c (st_cf st)) ->
+  sys_count st k < unknowns (cf_ty (st_cf st)) (cf_r (st_cf st)) (cf_c (st_cf st)) ->
+  count_deficient st = true.
+Proof.
+  intros Hu Ht Hk Hc. unfold count_deficient, short_system. rewrite (unknown_path_auto st Hu Ht).
+  apply orb_true_iff. left. apply existsb_exists. exists k. split.
+  - apply in_seq. lia.
+  - apply Nat.ltb_lt. exact Hc.
 Qed.
 
 (* ------------------------------------------------------------------ adding standards *)
@@ -598,7 +612,7 @@ Lemma known_deficient_by_counts (a b : state) :
   (forall k, sys_count a k = sys_count b k) ->
   count_deficient a = count_deficient b.
 Proof.
-  intros Cf Ua Ub C. unfold count_deficient.
+  intros Cf Ua Ub C. unfold count_deficient, short_system.
   rewrite (known_path_simple a Ua), (known_path_simple b Ub). rewrite Cf.
   apply existsb_pointwise. intros k. rewrite C. reflexivity.
 Qed.
